@@ -163,8 +163,13 @@ func hC10Req() {
 		cfg.kind = fkUnary
 	}
 	reencode := verifChoose("reencode", 2) == 1
+	jsonExtra := func(n int) int { return n + 2 }
 	if reencode {
 		cfg.svcCodecs = []string{CodecJSON}
+		if verifChoose("bulkyJSON", 2) == 1 {
+			cfg.jsonRepeat = 3 // a codec whose re-encoded form is three times larger
+			jsonExtra = func(n int) int { return 3*n + 2 }
+		}
 	}
 	compressed := verifChoose("compressed", 2) == 1
 	cfg.expand = 1
@@ -217,10 +222,10 @@ func hC10Req() {
 		reps = append(reps, len(abstract)) // it decompresses
 	}
 	if reencode {
-		reps = append(reps, len(abstract)+2)
+		reps = append(reps, jsonExtra(len(abstract)))
 	}
 	if comp && reencode {
-		reps = append(reps, len(abstract)+3) // re-encoded and re-compressed
+		reps = append(reps, jsonExtra(len(abstract))+1) // re-encoded and re-compressed
 	}
 	biggest := maxInt(reps...)
 	// does the transcoder have to hold the whole message? (re-encoding, de/re-compression, or measuring an
